@@ -55,13 +55,15 @@ def jobs(tier):
     add('split', dict(d=1, npm=2, sizes=[4, 3], allow_overlap=False,
                       unit=False))
     add('split', dict(d=1, npm=2, sizes=[2, 3]))          # all blocked
+    # five points: a top-up can shrink the larger cluster below 2*npm
+    add('split', dict(d=1, npm=2, sizes=[5], unit=False), max_paths=30000)
     for sizes in ([2], [2, 3], [2, 3, 2], [4, 2, 2]):
         add('trim', dict(d=1, npm=2, sizes=sizes, cache=1))
         add('trim', dict(d=1, npm=2, sizes=sizes, unit=False))
     add('sample', dict(d=1, npm=2, sizes=[2, 2], n=1), block=1)
     add('sample', dict(d=1, npm=2, sizes=[2], n=2, cache=1, unit=False))
     if thorough:
-        add('split', dict(d=1, npm=2, sizes=[5]), max_paths=30000)
+        add('split', dict(d=1, npm=2, sizes=[5, 2], cache=1), max_paths=30000)
         add('split', dict(d=2, npm=3, sizes=[6]), max_paths=60000)
         add('split', dict(d=2, npm=3, sizes=[6, 3], allow_overlap=False,
                           unit=False), max_paths=60000)
